@@ -285,7 +285,7 @@ func instrSig(i *ir.Instruction) string {
 
 const formsHeader = `From Avo Require Import Base.Prelude Base.Str.
 From stdpp Require Import gmap.
-From Avo Require Import Base.MaskSet Model.IR Model.RegFile Model.Forms Model.Ctors.
+From Avo Require Import Base.MaskSet Model.IR Model.RegFile Model.Forms Model.Ctors Model.IsaImplicit.
 From AvoGen Require Import Tab.
 Open Scope N_scope.
 Notation R := Build_reg.
